@@ -46,7 +46,7 @@ def ledger_callers(ctx, cfg, fs, rule):
             raise Broken('no caller of %s found' % rx)
         prim = rx.strip('^$').split('::')[-1]
         for fn, where in sorted(seen.items()):
-            ctx.ob(rule, 'callers:%s<-%s' % (prim, short(fn)), fn in table, '%s calls State::%s: %s' % (short(fn), prim, table.get(fn, 'NOT a listed caller (only the primitive consumers touch single items of the ledger)')), where=where, cfg=cfg)
+            ctx.ob(rule, 'callers:%s<-%s' % (prim, short(fn)), fs.listed(fn, table), '%s calls State::%s: %s' % (short(fn), prim, table.get(fn, 'NOT a listed caller (only the primitive consumers touch single items of the ledger)')), where=where, cfg=cfg)
 
 def field_accesses(place):
     return [(pr[2], pr[4]) for pr in place[1] if pr[0] == 'f']
@@ -72,14 +72,14 @@ def ledger(ctx, cfg, fs, rule):
                 writes.setdefault('<ItemState::Parsed>', {}).setdefault(outer(b.path), b.where(i))
     for fld, table in LEDGER_WRITERS.items():
         for fn, where in sorted(writes.get(fld, {}).items()):
-            ctx.ob(rule, 'ledger:%s<-%s' % (fld, short(fn)), fn in table,
+            ctx.ob(rule, 'ledger:%s<-%s' % (fld, short(fn)), fs.listed(fn, table),
                    '%s writes State.%s: %s' % (short(fn), fld, table.get(fn, 'NOT a listed writer of the consumption ledger')), where=where, cfg=cfg)
         if not writes.get(fld):
             raise Broken('no writer of State.%s found' % fld)
     for fn, where in sorted(writes.get('<State aggregate>', {}).items()):
-        ctx.ob(rule, 'ledger:State{}<-%s' % short(fn), fn in STATE_BUILDERS, '%s builds a State value: %s' % (short(fn), STATE_BUILDERS.get(fn, 'NOT a listed constructor')), where=where, cfg=cfg)
+        ctx.ob(rule, 'ledger:State{}<-%s' % short(fn), fs.listed(fn, STATE_BUILDERS), '%s builds a State value: %s' % (short(fn), STATE_BUILDERS.get(fn, 'NOT a listed constructor')), where=where, cfg=cfg)
     for fn, where in sorted(writes.get('<ItemState::Parsed>', {}).items()):
-        ctx.ob(rule, 'ledger:Parsed<-%s' % short(fn), fn in PARSED_BUILDERS, '%s produces ItemState::Parsed: %s' % (short(fn), PARSED_BUILDERS.get(fn, 'NOT a listed producer')), where=where, cfg=cfg)
+        ctx.ob(rule, 'ledger:Parsed<-%s' % short(fn), fs.listed(fn, PARSED_BUILDERS), '%s produces ItemState::Parsed: %s' % (short(fn), PARSED_BUILDERS.get(fn, 'NOT a listed producer')), where=where, cfg=cfg)
     # encapsulation: the ledger fields are private to args::inner, the primitives are crate-private
     adt = fs.adt(STATE)
     for f in adt['variants'][0]['fields']:
@@ -240,7 +240,7 @@ def itemstate(ctx, cfg, fs, rule):
                 hits.append('ItemState == ..')
         if hits:
             o = outer(b.path)
-            ctx.ob(rule, 'ItemState:inspected-by:%s' % short(o), o in ITEMSTATE_INSPECTORS,
+            ctx.ob(rule, 'ItemState:inspected-by:%s' % short(o), fs.listed(o, ITEMSTATE_INSPECTORS),
                    '%s inspects ItemState directly (%s): %s' % (short(b.path), sorted(set(hits)), ITEMSTATE_INSPECTORS.get(o, 'NOT a listed classifier - presence must be decided by ItemState::present()/parsed() so that conflict-marked items are treated uniformly')),
                    where=b.where(), cfg=cfg)
     # every presence query of State goes through ItemState::present
